@@ -1111,9 +1111,11 @@ class StateEngine(object):
                 #print()
 
                 # If has_terminated acknowledge the event and don't add the
-                # id to the event_ids list
+                # id to the event_ids list. The events of Parallel and Map
+                # states are never held in event_ids, but they still have to
+                # be acknowledged here as their handlers will not be run.
+                self.event_dispatcher.acknowledge(id)
                 if state_type != "Parallel" and state_type != "Map":
-                    self.event_dispatcher.acknowledge(id)
                     event_ids[index] = None
 
                 self.check_pending_results(execution_arn)
